@@ -240,8 +240,18 @@ class Models:
         return st.probe[call][k]
 
     def x_vf_region_begin(s, st, stack, work, args, ins):
-        st.foot = {'on': True, 'mark': st.nobj, 'stores': set(), 'loads': set(), 'outer_stores': set(),
+        sh = st.foot['shared'] if st.foot else set()
+        st.foot = {'on': True, 'mark': st.nobj, 'shared': set(sh), 'stores': set(), 'loads': set(), 'outer_stores': set(),
                    'mutable_globals': set(), 'atomics': set(), 'indirect_calls': set(), 'externals': set()}
+        return None
+
+    def x_vf_share(s, st, stack, work, args, ins):
+        """declare the object behind the pointer as shared between threads (C16): stores to it inside a region count"""
+        if st.foot is None:
+            st.foot = {'on': False, 'mark': 0, 'shared': set(), 'stores': set(), 'loads': set(), 'outer_stores': set(),
+                       'mutable_globals': set(), 'atomics': set(), 'indirect_calls': set(), 'externals': set()}
+        if isinstance(args[0], Ptr) and args[0].obj is not None:
+            st.foot['shared'].add(args[0].obj)
         return None
 
     def x_vf_region_end(s, st, stack, work, args, ins):
